@@ -28,8 +28,8 @@ ASSUMPTIONS = ["matrices of non-table operators emitted by rules are taken from 
 def check(spec):
     from mc import x_decomp as X
 
-    op = X.build(spec["expr"])
-    rule = dict(X.rules_for(op)).get(spec["rule"])
+    op, rules = X.instance(spec["expr"])
+    rule = rules.get(spec["rule"])
     if rule is None:
         return bad(f"rule-vanished:{spec['key']}:{spec['rule']}", None, spec["rule"])
     params = X.decomp_args(op)[0]
